@@ -2,13 +2,13 @@ HOOK_COMMITS = ["f359e01", "777d166", "7617359", "b305671"]
 NOT_APPLICABLE = {}
 TEXTS = {
     "C01": {
-        "text": "Lean 4 theorem C01_format_partial: for every byte string, configuration, parser behaviour and every wrapper behaviour "
-                "satisfying the frame contract, the output has the same non-blank characters in the same order as the input up to ASCII "
+        "text": "Lean 4 theorem C01_format: for every well-formed UTF-8 input, configuration, parser behaviour and every wrapper behaviour "
+                "satisfying the frame contract, the formatter returns an output and it has the same non-blank characters in the same order as the input up to ASCII "
                 "case; proved through exact models of lexer, content rules, pipeline glue and reconstructor (for every counter "
                 "assignment). Model tied to the code by per-stage differential execution; contract clauses evaluated on every case.",
         "design_ref": "DESIGN.md section 5 (C01)",
         "note": "Assumes (checked per case by the driver): WrapFrame (wrapper changes only blanks inside contents and keeps the token "
-                "vector) and 'no dangling E3 byte in token contents' (follows from valid UTF-8 once lex_char_boundaries is proved). "
+                "vector) (the 'no dangling E3 byte in token contents' side condition is now a theorem: lex_total + lex_char_boundaries + valid_nd). "
                 "Parser and wrapper are universally quantified, not modelled. Trusted: Lean kernel, translator, harness.",
         "technique": "Lean 4 proof over executable model + differential correspondence + per-case contract evaluation",
     },
@@ -50,7 +50,7 @@ TEXTS = {
         "technique": "Lean 4 proof about an idealised optimiser + width-pair oracle",
     },
     "C04": {
-        "text": "Totality of every model function plus Lean theorems for linear pass count and reference validity of the line builder; "
+        "text": "Lean theorems: the scanner returns a token list on every input (lex_never_fails: fuel suffices, every token is non-empty and in range) and slices only at character boundaries of well-formed UTF-8 (lex_slices_on_char_boundaries); linear pass count; reference validity of the line builder; totality of every model function; "
                 "for the unmodelled control flow (parser, wrapper search) a monitor: catch_unwind + hang detector per case on a debug "
                 "build, deterministic work counters against linear bounds, enumeration of all token sequences up to length 3 "
                 "(thorough). Partial by nature: termination of the parser's and the search's own loops is observed, not proved.",
@@ -153,7 +153,7 @@ TEXTS = {
         "technique": "Lean 4 proof over executable model + binary-level differential correspondence",
     },
     "C13": {
-        "text": "Machine-checked Lean 4 theorems on an exact model of the lexer: losslessness, single last end-of-file token, blank-only "
+        "text": "Machine-checked Lean 4 theorems on an exact model of the lexer: totality (lex_total), all boundaries on character boundaries (lex_char_boundaries), losslessness, single last end-of-file token, blank-only "
                 "leading whitespace, non-blank token starts, AVX2 identifier routine = scalar routine for every input, keyword lookup = "
                 "table specification for every word; all for inputs of any length. The model is tied to DelphiLexer::lex by "
                 "token-by-token differential execution on every run.",
